@@ -124,3 +124,386 @@ Proof.
   rewrite L. pose proof (zlen_nonneg r). ifs.
   apply (mp_be_enc 8). unfold two64 in H. cbn. lia.
 Qed.
+
+Ltac sx := unfold sext;
+  try change (2 ^ (8 - 1)) with 128; try change (2 ^ 8) with 256;
+  try change (2 ^ (16 - 1)) with 32768; try change (2 ^ 16) with 65536;
+  try change (2 ^ (32 - 1)) with 2147483648; try change (2 ^ 32) with 4294967296;
+  try change (2 ^ (64 - 1)) with 9223372036854775808; try change (2 ^ 64) with 18446744073709551616.
+
+Lemma mp_i64_enc x r : - two63 <= x < two63 -> mp_i64 (mpe_i64 x ++ r) = Ok (x, r).
+Proof.
+  intros H. unfold mpe_i64, two63, two32, two64 in *.
+  repeat match goal with
+  | |- context [if ?c then _ else _] => match c with context [x] => let E := fresh "C" in destruct c eqn:E end
+  end; cbn [app mp_i64]; ifs; try reflexivity.
+  all: try (rewrite (mp_be_enc 1) by (cbn; lia)); try (rewrite (mp_be_enc 2) by (cbn; lia));
+       try (rewrite (mp_be_enc 4) by (cbn; lia)); try (rewrite (mp_be_enc 8) by (cbn; lia));
+       unfold bind; sx; ifs; try (f_equal; f_equal; lia).
+Qed.
+
+Lemma mp_u32_enc x r : 0 <= x < two32 -> mp_u32 (mpe_u32 x ++ r) = Ok (x, r).
+Proof.
+  intros H. unfold mpe_u32, mp_u32, two32 in *.
+  repeat match goal with
+  | |- context [if ?c then _ else _] => match c with context [x] => let E := fresh "C" in destruct c eqn:E end
+  end; cbn [app mp_u64]; ifs.
+  all: try (rewrite (mp_be_enc 1) by (cbn; lia)); try (rewrite (mp_be_enc 2) by (cbn; lia));
+       try (rewrite (mp_be_enc 4) by (cbn; lia)); unfold bind; unfold two32; ifs; reflexivity.
+Qed.
+
+Section Repeat.
+  Context {A : Type}.
+  Variable rd : bytes -> res (A * bytes).
+  Variable enc : A -> bytes.
+  Variable P : A -> Prop.
+  Hypothesis rd_enc : forall x r, P x -> rd (enc x ++ r) = Ok (x, r).
+  Hypothesis enc_nonempty : forall x, (1 <= length (enc x))%nat.
+
+  Lemma flat_map_len_ge (l : list A) : (length l <= length (flat_map enc l))%nat.
+  Proof. induction l; cbn [flat_map length]; [lia|]. rewrite app_length. pose proof (enc_nonempty a). lia. Qed.
+
+  Lemma mp_repeat_enc : forall l r fuel, Forall P l -> (length l <= fuel)%nat ->
+    mp_repeat rd fuel (zlen l) (flat_map enc l ++ r) = Ok (l, r).
+  Proof.
+    induction l as [|x l IH]; intros r fuel HP Hf.
+    - destruct fuel; reflexivity.
+    - inversion HP; subst. destruct fuel as [|f]; [cbn in Hf; lia|].
+      cbn [mp_repeat]. assert (E : (zlen (x :: l) <=? 0) = false).
+      { unfold zlen. cbn [length]. lia. }
+      rewrite E. cbn [flat_map]. rewrite <- app_assoc. rewrite rd_enc by assumption. cbn [bind].
+      replace (zlen (x :: l) - 1) with (zlen l) by (unfold zlen; cbn [length]; lia).
+      rewrite IH by (try assumption; cbn in Hf; lia). reflexivity.
+  Qed.
+
+  Lemma mp_repeat_enc_top l r : Forall P l ->
+    mp_repeat rd (rep_fuel (flat_map enc l ++ r)) (zlen l) (flat_map enc l ++ r) = Ok (l, r).
+  Proof.
+    intros. apply mp_repeat_enc; [assumption|]. unfold rep_fuel. rewrite app_length. pose proof (flat_map_len_ge l). lia.
+  Qed.
+End Repeat.
+
+Section RepeatMap.
+  Context {A B : Type}.
+  Variable rd : bytes -> res (A * bytes).
+  Variable enc : B -> bytes.
+  Variable g : B -> A.
+  Variable P : B -> Prop.
+  Hypothesis rd_enc : forall x r, P x -> rd (enc x ++ r) = Ok (g x, r).
+  Hypothesis enc_nonempty : forall x, (1 <= length (enc x))%nat.
+
+  Lemma mp_repeat_map : forall l r fuel, Forall P l -> (length l <= fuel)%nat ->
+    mp_repeat rd fuel (zlen l) (flat_map enc l ++ r) = Ok (map g l, r).
+  Proof.
+    induction l as [|x l IH]; intros r fuel HP Hf.
+    - destruct fuel; reflexivity.
+    - inversion HP; subst. destruct fuel as [|f]; [cbn in Hf; lia|].
+      cbn [mp_repeat]. assert (E : (zlen (x :: l) <=? 0) = false).
+      { unfold zlen. cbn [length]. lia. }
+      rewrite E. cbn [flat_map]. rewrite <- app_assoc. rewrite rd_enc by assumption. cbn [bind].
+      replace (zlen (x :: l) - 1) with (zlen l) by (unfold zlen; cbn [length]; lia).
+      rewrite IH by (try assumption; cbn in Hf; lia). reflexivity.
+  Qed.
+  Lemma mp_repeat_map_top l r : Forall P l ->
+    mp_repeat rd (rep_fuel (flat_map enc l ++ r)) (zlen l) (flat_map enc l ++ r) = Ok (map g l, r).
+  Proof.
+    intros. apply mp_repeat_map; [assumption|]. unfold rep_fuel. rewrite app_length.
+    pose proof (flat_map_len_ge enc enc_nonempty l). lia.
+  Qed.
+End RepeatMap.
+
+Lemma mpe_str_nonempty s : (1 <= length (mpe_str s))%nat.
+Proof. unfold mpe_str. rewrite app_length. ifs; cbn [length]; lia. Qed.
+Lemma mpe_map_nonempty n : (1 <= length (mpe_map n))%nat.
+Proof. unfold mpe_map. ifs; cbn [length]; lia. Qed.
+Lemma mpe_i64_nonempty x : (1 <= length (mpe_i64 x))%nat.
+Proof. unfold mpe_i64. ifs; cbn [length]; lia. Qed.
+
+(* the field-by-field reading of mp_field *)
+Lemma mp_field_name v m b : mp_field v k_name m b = (do '(s, b1) <- mp_str b; Ok (set_name s m, b1)).
+Proof. reflexivity. Qed.
+Lemma mp_field_tags v m b : mp_field v k_tags m b =
+  (do '(n, b1) <- mp_map_header b; do _ <- mp_alloc v n 48 2 b1;
+   do '(ts, b2) <- mp_repeat mp_tag (rep_fuel b1) n b1; Ok (set_tags ts m, b2)).
+Proof. reflexivity. Qed.
+Lemma mp_field_counter v m b : mp_field v k_counter m b = (do '(x, b1) <- mp_f64 b; Ok (set_counter x m, b1)).
+Proof. reflexivity. Qed.
+Lemma mp_field_ts v m b : mp_field v k_ts m b = (do '(x, b1) <- mp_u32 b; Ok (set_ts x m, b1)).
+Proof. reflexivity. Qed.
+Lemma mp_field_value v m b : mp_field v k_value m b =
+  (do '(n, b1) <- mp_array_header b; do _ <- mp_alloc v n 8 5 b1;
+   do '(xs, b2) <- mp_repeat mp_f64 (rep_fuel b1) n b1; Ok (set_value xs m, b2)).
+Proof. reflexivity. Qed.
+Lemma mp_field_unique v m b : mp_field v k_unique m b =
+  (do '(n, b1) <- mp_array_header b; do _ <- mp_alloc v n 8 1 b1;
+   do '(xs, b2) <- mp_repeat mp_i64 (rep_fuel b1) n b1; Ok (set_unique xs m, b2)).
+Proof. reflexivity. Qed.
+Lemma mp_field_hist v m b : mp_field v k_histogram m b =
+  (do '(n, b1) <- mp_array_header b; do _ <- mp_alloc v n 16 11 b1;
+   do '(xs, b2) <- mp_repeat mp_centroid (rep_fuel b1) n b1; Ok (set_hist xs m, b2)).
+Proof. reflexivity. Qed.
+
+(* enough memory for any 32-bit count of the largest element *)
+Definition roomy (v : variant) : Prop := match v_alloc_limit v with Some L => two32 * 144 <= L | None => False end.
+Lemma mp_alloc_roomy v n esz minb b : roomy v -> 0 <= n < two32 -> 0 <= esz <= 144 -> mp_alloc v n esz minb b = Ok tt.
+Proof.
+  unfold roomy, mp_alloc. destruct (v_alloc_limit v); [|tauto]. intros. unfold two32 in *.
+  destruct (z <? n * esz) eqn:E; [exfalso; nia|reflexivity].
+Qed.
+
+Definition is_tagb (kv : bytes * bytes) := is_bytes (fst kv) && is_bytes (snd kv).
+Lemma mp_tag_enc kv r : is_tagb kv = true -> mp_tag (mpe_str (fst kv) ++ mpe_str (snd kv) ++ r) = Ok (kv, r).
+Proof.
+  intros H. apply andb_true_iff in H as [H1 H2]. unfold mp_tag.
+  rewrite mp_str_enc by (apply is_bytes_len; assumption). cbn [bind].
+  rewrite mp_str_enc by (apply is_bytes_len; assumption). cbn [bind]. destruct kv; reflexivity.
+Qed.
+Definition is_f64p (p : Z * Z) := is_f64 (fst p) && is_f64 (snd p).
+Lemma is_f64_spec x : is_f64 x = true -> 0 <= x < two64.
+Proof. unfold is_f64. lia. Qed.
+Lemma is_i64_spec x : is_i64 x = true -> - two63 <= x < two63.
+Proof. unfold is_i64. lia. Qed.
+Lemma mp_centroid_enc p r : is_f64p p = true ->
+  mp_centroid ((146 :: mpe_f64 (fst p) ++ mpe_f64 (snd p)) ++ r) = Ok (p, r).
+Proof.
+  intros H. apply andb_true_iff in H as [H1 H2]. unfold mp_centroid. cbn [app mp_array_header]. ifs. cbn [bind].
+  replace (146 - 144 =? 2) with true by reflexivity. cbn [negb].
+  rewrite <- app_assoc. rewrite mp_f64_enc by (apply is_f64_spec; assumption). cbn [bind].
+  rewrite mp_f64_enc by (apply is_f64_spec; assumption). cbn [bind]. destruct p; reflexivity.
+Qed.
+
+Lemma forallb_Forall {A} (p : A -> bool) l : forallb p l = true -> Forall (fun x => p x = true) l.
+Proof. intros H. apply Forall_forall. apply forallb_forall. assumption. Qed.
+
+(* one present field *)
+Definition item := (bytes * bytes * (dmetric -> dmetric))%type.
+Definition item_ok (v : variant) (it : item) : Prop :=
+  let '(key, payload, upd) := it in
+  0 <= zlen key < two32 /\ forall m r, mp_field v key m (payload ++ r) = Ok (upd m, r).
+Definition item_bytes (it : item) : bytes := let '(key, payload, _) := it in mpe_str key ++ payload.
+Definition item_upd (m : dmetric) (it : item) : dmetric := let '(_, _, upd) := it in upd m.
+
+Lemma mp_fields_items v : forall items fuel m r, Forall (item_ok v) items -> (length items <= fuel)%nat ->
+  mp_fields v fuel (zlen items) m (flat_map item_bytes items ++ r) = Ok (fold_left item_upd items m, r).
+Proof.
+  induction items as [|[[key payload] upd] items IH]; intros fuel m r HP Hf.
+  - destruct fuel; reflexivity.
+  - inversion HP as [|? ? H1 HP']; subst. unfold item_ok in H1. destruct H1 as [Hk Hfld].
+    destruct fuel as [|f]; [cbn in Hf; lia|].
+    cbn [mp_fields].
+    match goal with |- context [if ?c then _ else _] => assert (E : c = false) by (unfold zlen; cbn [length]; lia) end.
+    rewrite E. cbn [flat_map item_bytes]. rewrite <- !app_assoc. rewrite mp_key_enc by assumption. cbn [bind].
+    rewrite Hfld. cbn [bind].
+    match goal with |- context [mp_fields v f ?n] => replace n with (zlen items) by (unfold zlen; cbn [length]; lia) end.
+    rewrite IH by (try assumption; cbn in Hf; lia). reflexivity.
+Qed.
+
+Definition oitem {A} (o : option A) (f : A -> item) : list item := match o with Some x => [f x] | None => [] end.
+Definition enc_tagkv (kv : bytes * bytes) : bytes := mpe_str (fst kv) ++ mpe_str (snd kv).
+Definition enc_cent (p : Z * Z) : bytes := 146 :: mpe_f64 (fst p) ++ mpe_f64 (snd p).
+Definition metric_items (m : metric) : list item :=
+  [(k_name, mpe_str (m_name m), set_name (m_name m));
+   (k_tags, mpe_map (zlen (m_tags m)) ++ flat_map enc_tagkv (m_tags m), set_tags (m_tags m))]
+  ++ oitem (m_counter m) (fun c => (k_counter, mpe_f64 c, set_counter c))
+  ++ oitem (m_ts m) (fun t => (k_ts, mpe_u32 t, set_ts t))
+  ++ oitem (m_value m) (fun l => (k_value, mpe_arr (zlen l) ++ flat_map mpe_f64 l, set_value l))
+  ++ oitem (m_unique m) (fun l => (k_unique, mpe_arr (zlen l) ++ flat_map mpe_i64 l, set_unique l))
+  ++ oitem (m_hist m) (fun l => (k_histogram, mpe_arr (zlen l) ++ flat_map enc_cent l, set_hist l)).
+
+Lemma enc_mp_metric_items m : enc_mp_metric m = mpe_map (zlen (metric_items m)) ++ flat_map item_bytes (metric_items m).
+Proof.
+  unfold enc_mp_metric, metric_items.
+  destruct (m_counter m), (m_ts m), (m_value m), (m_unique m), (m_hist m);
+  cbn [oitem oenc ocount app flat_map item_bytes]; rewrite ?app_nil_r, <- ?app_assoc; reflexivity.
+Qed.
+Lemma fold_items m : fold_left item_upd (metric_items m) dzero = canon m.
+Proof. unfold metric_items, canon. destruct (m_counter m), (m_ts m), (m_value m), (m_unique m), (m_hist m); reflexivity. Qed.
+
+Lemma wf_metric_parts m : wf_metric m = true ->
+  is_bytes (m_name m) = true /\ forallb is_tagb (m_tags m) = true /\ zlen (m_tags m) < two32 /\
+  oall is_f64 (m_counter m) = true /\ oall (fun t => (0 <=? t) && (t <? two32)) (m_ts m) = true /\
+  oall (fun l => forallb is_f64 l && (zlen l <? two32)) (m_value m) = true /\
+  oall (fun l => forallb is_i64 l && (zlen l <? two32)) (m_unique m) = true /\
+  oall (fun l => forallb is_f64p l && (zlen l <? two32)) (m_hist m) = true.
+Proof.
+  unfold wf_metric. intros H. repeat (apply andb_true_iff in H as [H ?]). repeat split; try assumption; [unfold is_bytes; rewrite H; assumption | lia].
+Qed.
+
+Lemma items_ok v m : roomy v -> wf_metric m = true -> Forall (item_ok v) (metric_items m).
+Proof.
+  intros Hv H. apply wf_metric_parts in H as (Hn & Ht & Htl & Hc & Hts & Hv' & Hu & Hh).
+  unfold metric_items.
+  apply Forall_app; split; [|apply Forall_app; split; [|apply Forall_app; split; [|apply Forall_app; split; [|apply Forall_app; split]]]].
+  - repeat constructor; try (cbn; unfold two32; lia).
+    + intros m0 r. rewrite mp_field_name. rewrite mp_str_enc by (apply is_bytes_len; assumption). reflexivity.
+    + intros m0 r. rewrite mp_field_tags. rewrite <- app_assoc.
+      pose proof (zlen_nonneg (m_tags m)).
+      rewrite mp_map_enc by lia. cbn [bind]. rewrite mp_alloc_roomy by (try assumption; lia). cbn [bind].
+      rewrite (mp_repeat_enc_top mp_tag enc_tagkv (fun kv => is_tagb kv = true)).
+      * reflexivity.
+      * intros x r0 Hx. unfold enc_tagkv. rewrite <- app_assoc. apply mp_tag_enc. assumption.
+      * intros x. unfold enc_tagkv. rewrite app_length. pose proof (mpe_str_nonempty (fst x)). lia.
+      * apply forallb_Forall. assumption.
+  - destruct (m_counter m) as [c|]; cbn [oitem]; constructor; [|constructor].
+    split; [cbn; unfold two32; lia|]. intros m0 r. rewrite mp_field_counter.
+    rewrite mp_f64_enc by (apply is_f64_spec; assumption). reflexivity.
+  - destruct (m_ts m) as [t|]; cbn [oitem]; constructor; [|constructor].
+    split; [cbn; unfold two32; lia|]. intros m0 r. rewrite mp_field_ts. cbn [oall] in Hts.
+    rewrite mp_u32_enc by lia. reflexivity.
+  - destruct (m_value m) as [l|]; cbn [oitem]; constructor; [|constructor].
+    split; [cbn; unfold two32; lia|]. intros m0 r. rewrite mp_field_value. rewrite <- app_assoc.
+    cbn [oall] in Hv'. apply andb_true_iff in Hv' as [Hl1 Hl2]. pose proof (zlen_nonneg l).
+    rewrite mp_arr_enc by lia. cbn [bind]. rewrite mp_alloc_roomy by (try assumption; lia). cbn [bind].
+    rewrite (mp_repeat_enc_top mp_f64 mpe_f64 (fun x => is_f64 x = true)).
+    + reflexivity.
+    + intros x r0 Hx. apply mp_f64_enc. apply is_f64_spec. assumption.
+    + intros x. cbn. lia.
+    + apply forallb_Forall. assumption.
+  - destruct (m_unique m) as [l|]; cbn [oitem]; constructor; [|constructor].
+    split; [cbn; unfold two32; lia|]. intros m0 r. rewrite mp_field_unique. rewrite <- app_assoc.
+    cbn [oall] in Hu. apply andb_true_iff in Hu as [Hl1 Hl2]. pose proof (zlen_nonneg l).
+    rewrite mp_arr_enc by lia. cbn [bind]. rewrite mp_alloc_roomy by (try assumption; lia). cbn [bind].
+    rewrite (mp_repeat_enc_top mp_i64 mpe_i64 (fun x => is_i64 x = true)).
+    + reflexivity.
+    + intros x r0 Hx. apply mp_i64_enc. apply is_i64_spec. assumption.
+    + apply mpe_i64_nonempty.
+    + apply forallb_Forall. assumption.
+  - destruct (m_hist m) as [l|]; cbn [oitem]; constructor; [|constructor].
+    split; [cbn; unfold two32; lia|]. intros m0 r. rewrite mp_field_hist. rewrite <- app_assoc.
+    cbn [oall] in Hh. apply andb_true_iff in Hh as [Hl1 Hl2]. pose proof (zlen_nonneg l).
+    rewrite mp_arr_enc by lia. cbn [bind]. rewrite mp_alloc_roomy by (try assumption; lia). cbn [bind].
+    rewrite (mp_repeat_enc_top mp_centroid enc_cent (fun x => is_f64p x = true)).
+    + reflexivity.
+    + intros x r0 Hx. apply mp_centroid_enc. assumption.
+    + intros x. cbn. lia.
+    + apply forallb_Forall. assumption.
+Qed.
+
+Lemma item_bytes_nonempty it : (1 <= length (item_bytes it))%nat.
+Proof. destruct it as [[k p] u]. cbn [item_bytes]. rewrite app_length. pose proof (mpe_str_nonempty k). lia. Qed.
+
+Lemma metric_items_len m : 0 <= zlen (metric_items m) <= 7.
+Proof.
+  unfold metric_items. destruct (m_counter m), (m_ts m), (m_value m), (m_unique m), (m_hist m); cbn; lia.
+Qed.
+
+Lemma mp_metric_enc v m r : roomy v -> wf_metric m = true -> mp_metric v (enc_mp_metric m ++ r) = Ok (canon m, r).
+Proof.
+  intros Hv H. unfold mp_metric. rewrite enc_mp_metric_items, <- app_assoc.
+  pose proof (metric_items_len m). rewrite mp_map_enc by (unfold two32; lia). cbn [bind].
+  rewrite mp_fields_items.
+  - rewrite fold_items. reflexivity.
+  - apply items_ok; assumption.
+  - unfold rep_fuel. rewrite app_length.
+    pose proof (flat_map_len_ge item_bytes item_bytes_nonempty (metric_items m)). lia.
+Qed.
+
+Lemma enc_mp_metric_nonempty m : (1 <= length (enc_mp_metric m))%nat.
+Proof. rewrite enc_mp_metric_items, app_length. pose proof (mpe_map_nonempty (zlen (metric_items m))). lia. Qed.
+
+Theorem mp_batch_enc : forall v b r, roomy v -> wf_batch b = true ->
+  mp_batch v (enc_mp b ++ r) = Ok (map canon b, r).
+Proof.
+  intros v b r Hv H. unfold wf_batch in H. apply andb_true_iff in H as [Hb Hl].
+  unfold mp_batch, enc_mp. rewrite <- !app_assoc. rewrite mp_map_enc by (unfold two32; lia). cbn [bind].
+  unfold rep_fuel at 1. cbn [mp_batch_fields]. replace (1 <=? 0) with false by reflexivity.
+  rewrite mp_key_enc by (cbn; unfold two32; lia). cbn [bind].
+  replace (bytes_eqb k_metrics k_metrics) with true by reflexivity.
+  pose proof (zlen_nonneg b). rewrite mp_arr_enc by lia. cbn [bind].
+  rewrite mp_alloc_roomy by (try assumption; lia). cbn [bind].
+  rewrite (mp_repeat_map_top (mp_metric v) enc_mp_metric canon (fun m => wf_metric m = true)).
+  - cbn [bind]. replace (1 - 1) with 0 by reflexivity.
+    match goal with |- mp_batch_fields _ ?f _ _ _ = _ => destruct f end; reflexivity.
+  - intros. apply mp_metric_enc; assumption.
+  - apply enc_mp_metric_nonempty.
+  - apply forallb_Forall. assumption.
+Qed.
+
+(* ---------- parser.parse on an encoded batch; error reporting; the recorded defects ---------- *)
+Section ParseProofs.
+  Variable parse_f64 parse_u32 parse_i64 : bool -> bytes -> option Z.
+  Variable lex : bytes -> option jv.
+  Notation parse' := (parse parse_f64 parse_u32 parse_i64 lex).
+
+  Lemma enc_mp_head b : exists r, enc_mp b = 129 :: r.
+  Proof. unfold enc_mp. cbn [mpe_map Z.ltb Z.compare Pos.compare Pos.compare_cont app Z.add Pos.add]. eexists. reflexivity. Qed.
+
+  Theorem parse_enc_mp : forall v b, roomy v -> wf_batch b = true ->
+    parse' v (enc_mp b) = {| o_fmt := FMsgpack; o_metrics := map canon b; o_end := EDone |}.
+  Proof.
+    intros v b Hv H. unfold parse. rewrite detect_documented.
+    destruct (enc_mp_head b) as [r E]. rewrite E. cbn [doc_format Z.eqb Pos.eqb andb Z.leb Z.compare Pos.compare Pos.compare_cont].
+    cbn [length loop_batches]. rewrite <- E.
+    rewrite <- (app_nil_r (enc_mp b)) at 1. rewrite mp_batch_enc by assumption.
+    destruct (length r); reflexivity.
+  Qed.
+
+  Lemma report_nonempty x l : report (x :: l) = EParseError (zlen (x :: l)).
+  Proof. unfold report. pose proof (zlen_nonneg l). unfold zlen in *. cbn [length]. ifs. reflexivity. Qed.
+
+  Lemma loop_batches_reports dec : forall fuel acc pkt, snd (loop_batches dec fuel acc pkt) <> ESilent.
+  Proof.
+    induction fuel; intros acc [|x l]; cbn [loop_batches snd]; try congruence.
+    destruct (dec (x :: l)) as [[ms r]| | |]; cbn [snd]; try congruence; try apply IHfuel.
+    rewrite report_nonempty. congruence.
+  Qed.
+
+  (* with the repaired protobuf branch every error parse returns has been given to HandleParseError *)
+  Theorem repaired_error_reported : forall pkt, o_end (parse' repaired pkt) <> ESilent.
+  Proof.
+    intros pkt. unfold parse. destruct pkt as [|x l]; [cbn; congruence|].
+    destruct (detect (x :: l)); cbn [o_end]; try congruence.
+    - pose proof (loop_batches_reports tl_batch (length (x :: l)) [] (x :: l)) as H.
+      destruct (loop_batches tl_batch (length (x :: l)) [] (x :: l)). exact H.
+    - destruct (lex (x :: l)); [destruct (j_batch _ _ _ _)|]; cbn [o_end]; rewrite ?report_nonempty; congruence.
+    - pose proof (loop_batches_reports (mp_batch repaired) (length (x :: l)) [] (x :: l)) as H.
+      destruct (loop_batches (mp_batch repaired) (length (x :: l)) [] (x :: l)). exact H.
+    - destruct (pb_batch repaired (length (x :: l)) [] (x :: l)); cbn [o_end v_pb_err_whole repaired];
+        rewrite ?report_nonempty; congruence.
+  Qed.
+End ParseProofs.
+
+Definition no_num (_ : bool) (_ : bytes) : option Z := None.
+Definition no_lex (_ : bytes) : option jv := None.
+Definition parse0 := parse no_num no_num no_num no_lex.
+
+(* F-C13a: 81 A7 "metrics" DD FF FF FF FF *)
+Definition w_hostile : bytes := [129; 167; 109; 101; 116; 114; 105; 99; 115; 221; 255; 255; 255; 255].
+(* F-C13b: a batch of one metric whose ts is 2^32 *)
+Definition w_silent : bytes := [202; 193; 6; 6; 32; 128; 128; 128; 128; 16].
+(* F-C13d *)
+Definition w_unpacked : list metric :=
+  [{| m_name := [109]; m_tags := []; m_counter := None; m_ts := None; m_value := None; m_unique := Some [7]; m_hist := None |}].
+
+Lemma hostile_batch_crashes L : 0 <= L < 618475290480 -> mp_batch (faithful L) w_hostile = Crash.
+Proof.
+  intros HL. change w_hostile with (mpe_map 1 ++ mpe_str k_metrics ++ [221; 255; 255; 255; 255]).
+  unfold mp_batch. rewrite mp_map_enc by (unfold two32; lia). cbn [bind].
+  unfold rep_fuel. cbn [mp_batch_fields]. replace (1 <=? 0) with false by reflexivity.
+  rewrite mp_key_enc by (cbn; unfold two32; lia). cbn [bind].
+  replace (bytes_eqb k_metrics k_metrics) with true by reflexivity.
+  replace (mp_array_header [221; 255; 255; 255; 255]) with (@Ok (Z * bytes) (4294967295, [])) by reflexivity.
+  cbn [bind]. unfold mp_alloc. cbn [v_alloc_limit faithful].
+  replace (4294967295 * 144) with 618475290480 by reflexivity.
+  destruct (L <? 618475290480) eqn:E; [reflexivity|lia].
+Qed.
+Lemma hostile_count_crashes : forall L, 0 <= L < 618475290480 -> o_end (parse0 (faithful L) w_hostile) = ECrash.
+Proof.
+  intros L HL. unfold parse0, parse. replace (detect w_hostile) with FMsgpack by reflexivity.
+  change (length w_hostile) with 14%nat. unfold loop_batches. change w_hostile with (129 :: tl w_hostile) at 1.
+  cbv iota beta. change (129 :: tl w_hostile) with w_hostile. rewrite hostile_batch_crashes by assumption. reflexivity.
+Qed.
+Lemma hostile_count_repaired : parse0 repaired w_hostile = {| o_fmt := FMsgpack; o_metrics := []; o_end := EParseError 14 |}.
+Proof. vm_compute. reflexivity. Qed.
+
+Lemma pb_silent_witness : forall L, parse0 (faithful L) w_silent = {| o_fmt := FProtobuf; o_metrics := []; o_end := ESilent |}.
+Proof. intros. vm_compute. reflexivity. Qed.
+Lemma pb_silent_repaired : parse0 repaired w_silent = {| o_fmt := FProtobuf; o_metrics := []; o_end := EParseError 10 |}.
+Proof. vm_compute. reflexivity. Qed.
+
+Lemma pb_unpacked_witness : forall L,
+  wf_batch w_unpacked = true /\
+  parse0 (faithful L) (enc_pb false w_unpacked) = {| o_fmt := FProtobuf; o_metrics := [set_name [109] dzero]; o_end := EDone |} /\
+  parse0 (faithful L) (enc_pb true w_unpacked) = {| o_fmt := FProtobuf; o_metrics := map canon w_unpacked; o_end := EDone |} /\
+  parse0 repaired (enc_pb false w_unpacked) = {| o_fmt := FProtobuf; o_metrics := map canon w_unpacked; o_end := EDone |}.
+Proof. intros. vm_compute. repeat split; reflexivity. Qed.
